@@ -15,7 +15,7 @@ RULE = ("three-phase networks dimensioned so constraints bind in a good share of
         "on/off x {no estimator, SimpleRampdown, stub estimator} x continuous_inc; non-trivial = a call with a binding "
         "constraint (some session got less than its own bound) and >=2 active sessions; distinct = history signature + options")
 PROBES = ["binding_call", "nearly_finished_session", "estimator_bound_binding", "uninterrupted_min_applied", "crossed_session_ids",
-          "resumed", "rr_call", "greedy_call", "finite_rate_station", "removed_finished_session", "constraint_free", "call_after_reconfig", "knife_edge_world", "knife_edge_sum_rejected"]
+          "resumed", "rr_call", "greedy_call", "finite_rate_station", "removed_finished_session", "constraint_free", "call_after_reconfig", "knife_edge_world", "knife_edge_sum_rejected", "sorted_recompute_interval_not_1"]
 FAULT_DIMENSION = ("crash + rerun (estimator state carried across a resume); operator changes a constraint limit between two "
                    "periods (update_constraint); no fault alters the algorithm")
 ASSUMPTIONS = ["network tolerances >= the algorithms' hard-wired 1e-5 / 1e-7 (the algorithm-side check does not read the network's)",
@@ -24,7 +24,8 @@ ASSUMPTIONS = ["network tolerances >= the algorithms' hard-wired 1e-5 / 1e-7 (th
 PROFILE = world.profile(reconfig=0.25, constraints={"three": 5, "single": 1, "none": 1}, binding=(0.15, 0.9), evse_kinds={"cont": 3, "finite": 4},
                         party={"greedy": 3, "rr": 2}, estimator={"none": 2, "rampdown": 2, "stub": 3}, uninterrupted=0.5,
                         sid_mode={"plain": 1, "crossed": 1}, faults={"crash": 0.3}, resume_modes=["rerun"],
-                        demand=(0.01, 1.6), rr_inc=[0.05, 0.1, 0.5, 1, 3], stations=(2, 7), noise=0.2, horizon=(4, 24))
+                        demand=(0.01, 1.6), rr_inc=[0.05, 0.1, 0.5, 1, 3], stations=(2, 7), noise=0.2, horizon=(4, 24),
+                        sorted_max_recompute=[1, 1, 1, 2, 4, None])
 
 
 def gen(rs, tier):
@@ -106,18 +107,49 @@ def check(sc):
         out.probe("finite_rate_station")
     est_mode = p.get("estimator", "none")
     unint = p.get("uninterrupted", False)
+    if p.get("max_recompute") != 1:
+        out.probe("sorted_recompute_interval_not_1")
     for c in tr.calls:
         if not c.get("completed"):
             continue
         t = c["t"]
         sch = c["schedule"]
         out.probe("rr_call" if p["kind"] == "rr" else "greedy_call")
-        if sorted(sch.keys()) != sorted(ids) or any(len(v) != 1 for v in sch.values()):
+        if sorted(sch.keys()) != sorted(ids) or len({len(v) for v in sch.values()}) != 1 or any(len(v) < 1 for v in sch.values()):
             out.add("C07/schedule_shape", "t=%d keys %s lengths %s" % (t, sorted(sch.keys()), sorted({len(v) for v in sch.values()})))
             break
         vec = [sch[s][0] for s in ids]
         col = [[x] for x in vec]
         cons = cons_of(sc, t)
+        L_ = len(sch[ids[0]])
+        if L_ > 1:
+            # a schedule that holds pilots for several periods: every column has to be safe and the row as a whole must not
+            # hand a session more than its remaining demand (in A*periods)
+            out.probe("multi_period_schedule")
+            truth_ = {x["station"]: x for x in truth_sessions(sc, tr, t)}
+            for k_ in range(1, L_):
+                colk = [[sch[s][k_]] for s in ids]
+                mk, wk = phasor.margins(cons, phases, colk, vt, rt)
+                if cons and mk < -1e-9 * max(1.0, cons[wk[0]][1]):
+                    out.add("C07/infeasible_schedule", "t=%d column %d of schedule violates constraint %d by %.3e A" % (t, k_, wk[0], -mk))
+                    break
+                for s in ids:
+                    if not in_allowable(st[s]["evse"], sch[s][k_]):
+                        out.add("C07/pilot_not_allowable", "t=%d station %s column %d pilot %r" % (t, s, k_, sch[s][k_]))
+                        break
+            for s in ids:
+                x = truth_.get(s)
+                tot = sum(sch[s])
+                if x is None:
+                    if tot != 0:
+                        out.add("C07/pilot_without_active_session", "t=%d station %s row %r but no active session" % (t, s, sch[s]))
+                        break
+                elif tot > x["rem_ap"] * (1 + 1e-9) + 1e-9 and x["remaining"] > 1e-3 + 1e-9:
+                    out.add("C07/exceeds_remaining_demand", "t=%d station %s row %r sums to more than the remaining demand %r A*periods (session %s)"
+                            % (t, s, sch[s], x["rem_ap"], x["session_id"]))
+                    break
+            if out.viol:
+                break
         reconfigured = any(r["t"] <= t for r in sc.get("reconfig", ()))
         if reconfigured:
             out.probe("call_after_reconfig")
